@@ -87,8 +87,9 @@ PROPS["C18"] = dict(
     precompare=cases.precompare_conversions,
     oracle=cases.oracle_C18,
     # conversions must work the same with checking compiled out (`eq_assume_true` / `eq_assume_false` pick the answer there)
-    configs=[(None, "chk"), ("std,devices", "nochk")],
-    configs_thorough=[(None, "chk"), ("std,devices", "nochk"), ("libm,chk,devices", "chk nostd"), ("release:std,chk,devices", "chk")],
+    configs=[(None, "chk"), ("std,devices", "nochk"), ("micromath,chk,devices", "chk nostd")],   # micromath brings its own float helpers (trunc, ...)
+    configs_thorough=[(None, "chk"), ("std,devices", "nochk"), ("libm,chk,devices", "chk nostd"), ("micromath,chk,devices", "chk nostd"),
+                      ("release:std,chk,devices", "chk")],
     mask={"time", "cat", "unit", "float"},
     rule="i64 operands stratified over magnitudes 0..2^62, signs, extremes and neighbourhoods of 2^24*2^k (f32 rounding ties); "
          "every Time/DimensionlessInteger operator and assign form incl. overflow and /0 panics; conversions to/from Quantity and i64; "
@@ -278,7 +279,10 @@ PROPS["C20"] = dict(
 
 PROPS["C12"] = dict(
     gen=cases.gen_C12,
-    configs=[(None, "chk"), ("std,devices", "nochk")],
+    # which power function the EWMA uses is decided by cfg lines in enhanced_float.rs (std > libm > micromath): the build with BOTH
+    # libm and micromath must still use libm's (compared with the bound C19 allows for libm: last ulps)
+    configs=[(None, "chk"), ("std,devices", "nochk"), ("libm,micromath,chk,devices", "chk nostd")],
+    config_tol=cases.config_tol_C19,
     oracle=cases.oracle_C12,
     line_mask=cases.line_mask_C12,
     mask={"cat", "time", "unit", "float"},
@@ -372,6 +376,7 @@ PROPS["C19"] = dict(
     mask={"cat", "time", "unit", "float"},
     # every way the documented rule `dim_check_release or (debug_assertions and dim_check_debug)` can come out, on std; plus no_std
     configs=[(None, "chk"), ("std,devices", "nochk"), ("libm,devices", "nochk nostd"), ("libm,chk,devices", "chk nostd"),
+             ("micromath,chk,devices", "chk nostd"), ("libm,micromath,devices", "nochk nostd"),     # (both on: libm takes precedence)
              ("release:std,chk,devices", "chk"), ("release:std,chkdbg,devices", "nochk")],
     configs_thorough=[(None, "chk"), ("std,devices", "nochk"), ("libm,chk,devices", "chk nostd"), ("libm,devices", "nochk nostd"),
                       ("micromath,chk,devices", "chk nostd"), ("micromath,devices", "nochk nostd"), ("std,chkdbg,devices", "chk"),
